@@ -30,6 +30,7 @@ type Program struct {
 	initOrder        []*ssa.Package
 	PureTypes        func(types.Type) bool
 	Params           map[string]int
+	AssertPrefix     string
 }
 
 var gritsPkgs = []string{"grits/types", "grits/process", "grits/parser", "grits/cmd", "grits/position"}
